@@ -624,6 +624,54 @@ def run(repo, rep, tier):
                         rep.finding("R13.5", f, n, f"`{ast.unparse(e)}` is compared with a query bound as if it were the lower edge of bin "
                                     f"`{idx[0]}`, but the class's edge function (from range()) is {canon!r}: the on-edge correction fires for "
                                     f"the wrong values, so sub-range views disagree with the bins fill uses", stmt=f"edge expression {ast.unparse(e)}")
+    # ---------------- R13.9 optional numbers (None = "nothing filled") are tested with `is None`, never by truthiness: 0 is a valid bin index
+    r9 = rep.rule("R13.9", "attributes that are None-or-a-number (minBin, maxBin, low, high ...) are never used as a truth value", floor=3)
+    optional = set()
+    for c in prims:
+        for fn in c.methods.values():
+            if not fn.is_property:
+                continue
+            rets = [x for x in walk_local_stmt(fn.node) if isinstance(x, ast.Return) and x.value is not None]
+            vals = []
+            for x in rets:
+                v = x.value
+                vals += [v.body, v.orelse] if isinstance(v, ast.IfExp) else [v]
+            has_none = any(isinstance(v, ast.Constant) and v.value is None for v in vals)
+            has_num = any(isinstance(v, ast.Call) and isinstance(v.func, ast.Name) and v.func.id in ("min", "max", "int", "float", "len") or
+                          isinstance(v, (ast.BinOp,)) for v in vals)
+            if has_none and has_num:
+                optional.add(fn.name)
+    if not optional:
+        raise AnalysisError("R13.9: no None-or-number property found (SparselyBin.minBin/maxBin expected)")
+    nuses = 0
+    for fobj in repo.all_functions():
+        for n in walk_local_stmt(fobj.node):
+            tests = []
+            if isinstance(n, (ast.If, ast.While, ast.IfExp)):
+                tests.append(n.test)
+            if isinstance(n, ast.comprehension):
+                tests += n.ifs
+            if isinstance(n, ast.Assert):
+                tests.append(n.test)
+            for t in tests:
+                stack = [t]
+                while stack:
+                    e = stack.pop()
+                    if isinstance(e, ast.BoolOp):
+                        stack += e.values
+                    elif isinstance(e, ast.UnaryOp) and isinstance(e.op, ast.Not):
+                        stack.append(e.operand)
+                    elif isinstance(e, ast.Attribute) and e.attr in optional:
+                        nuses += 1
+                        r9.ob(False, f"{fobj.qualname}: `{ast.unparse(e)}` as a truth value")
+                        rep.finding("R13.9", fobj, e, f"`{ast.unparse(e)}` is None when nothing is filled and otherwise a bin index, and it is used "
+                                    f"as a truth value: the valid index 0 is treated like 'nothing filled', so the slice whose lowest/highest "
+                                    f"filled bin is bin 0 is dropped from the derived range and the grid loses its weights",
+                                    stmt=f"truthiness of {ast.unparse(e)}")
+            if isinstance(n, ast.Compare) and len(n.ops) == 1 and isinstance(n.ops[0], (ast.Is, ast.IsNot)) and isinstance(n.left, ast.Attribute) \
+                    and n.left.attr in optional:
+                nuses += 1
+                r9.ob(True, f"{fobj.qualname}: `{ast.unparse(n)}`")
     cat = [c for c in prims if c.name == "Categorize"][0]
     srcs = {}
     for an in ("bin_entries", "bin_labels"):
